@@ -487,7 +487,7 @@ Gen(f) ==
      THEN mq' = [mq EXCEPT ![f].frames = EmptyF, ![f].has = TRUE]       \* a callable: evaluated inside send_maybe
      ELSE /\ mq' = [mq EXCEPT ![f].frames = [t \in OTopics(f, oseq[f]) |-> <<FIdx[f], oseq[f], 0>>], ![f].has = TRUE]
   /\ oseq' = IF Beh[f].lazy THEN oseq ELSE [oseq EXCEPT ![f] = @ + 1]
-  /\ pc' = [pc EXCEPT ![f] = "s_enter"]
+  /\ pc' = [pc EXCEPT ![f] = IF Beh[f].slow /\ ~Beh[f].lazy THEN "work_s" ELSE "s_enter"]    \* a slow producer
   /\ lbl' = <<"int", f, 0>>
   /\ UNCHANGED <<minSend, clients, sl, prevId, rmin, rbal, rsrc, pubq, subq, reqq, pullq, linkUp, inc, stalled,
                  nfaults, gvars>>
